@@ -192,9 +192,9 @@ func c34HostileVarint(rng *rand.Rand, actual int64, elem int64) c34Var {
 		return c34Var{v: actual + 1}
 	case x < 30:
 		return c34Var{v: actual - 1}
-	case x < 38:
+	case x < 44:
 		return c34Var{v: 65536 + rng.Int63n(1<<20)/elem}
-	case x < 54:
+	case x < 50:
 		return c34Var{v: (70_000_000 + rng.Int63n(30_000_000)) / elem} // just above 64 MiB once multiplied by the element size
 	case x < 62:
 		return c34Var{v: 1 << 62}
@@ -229,7 +229,7 @@ func c34HostileInt32(rng *rand.Rand, actual int32) int32 {
 	if rng.Intn(100) < c34Giant {
 		return []int32{1<<31 - 1, 200_000_000}[rng.Intn(2)]
 	}
-	return []int32{0, -1, 1, actual + 1, actual - 1, 600_000, 700_000, 1_000_000, -1 << 31, 65536, -1000}[rng.Intn(11)]
+	return []int32{0, -1, 1, actual + 1, actual - 1, 2, 700_000, 3, -1 << 31, 65536, -1000}[rng.Intn(11)]
 }
 
 // c34Mutate applies 1-2 structure-aware mutations and returns a label naming them.
@@ -595,7 +595,7 @@ func TestVerifC34Gen(t *testing.T) {
 		case 0:
 			addIdx("idx/valid", c34Index(es, int32(ne), 100))
 		case 1, 2:
-			c := []int32{-1, -1 << 31, 0, int32(ne) + 1, int32(ne) - 1, 5_000_000, 6_000_000, 65536}[rng.Intn(8)]
+			c := []int32{-1, 0, int32(ne) + 1, int32(ne) - 1, 5_000_000, 65536, 7, 100}[rng.Intn(8)]
 			if rng.Intn(100) < c34Giant {
 				c = 1<<31 - 1
 			}
@@ -607,7 +607,7 @@ func TestVerifC34Gen(t *testing.T) {
 		case 4:
 			b := make([]byte, rng.Intn(200))
 			rng.Read(b)
-			if len(b) >= 6 && rng.Intn(2) == 0 {
+			if len(b) >= 6 && rng.Intn(6) == 0 {
 				copy(b, "IDX\x00\x00\x01")
 			}
 			addIdx("idx/noise", b)
